@@ -370,8 +370,8 @@ theorem C18_eptid_get_partial (hash : Str → Str) (h : HashOk hash) (secret idp
           intro e
           obtain ⟨h1, h2⟩ := eptidMake_injective hash h secret idp _ _ _ _ e
           exact hab (Prod.ext h1 h2)
-        have h1 : (a == b) = false := by simpa using hab
-        have h2 : (eptidMake hash secret idp a.1 [a.2] == eptidMake hash secret idp b.1 [b.2]) = false := by simpa using this
+        have h1 : (some a == some b) = false := by simpa using hab
+        have h2 : (some (eptidMake hash secret idp a.1 [a.2]) == some (eptidMake hash secret idp b.1 [b.2])) = false := by simpa using this
         rw [h1, h2]
 
 /-- … and is false in general (F15): `("a__b","c")` and `("a","b__c")` share the cache entry. -/
